@@ -32,6 +32,8 @@ def inventory():
 
 
 def is_helper(fn):
+    if fn is not None and fn.get("alias_partner"):
+        return False
     """a repo function the rules do not know as a unit"""
     if fn is None or fn.get("closure") or "{closure" in (fn.get("key") or fn.get("path") or ""):
         return False
@@ -290,6 +292,16 @@ def _edges_of_body(body):
 def apply_to_facts(F):
     """rewrite F.insts / F.fns / F.graph in place; returns a report dict"""
     report = {"helpers": [], "callers": {}}
+    # a helper that an anchor function forwards to (terms.ALIAS_ANCHORS) stays a unit: its calls are written as calls of the anchor
+    from . import terms as T_
+    partners = set(T_.call_aliases(F).keys())
+    for pk in partners:
+        if pk in F.insts:
+            F.insts[pk] = dict(F.insts[pk], alias_partner=True)
+    partner_paths = {F.insts[pk].get("path") for pk in partners if pk in F.insts}
+    for k_, v_ in list(F.fns.items()):
+        if v_.get("path") in partner_paths:
+            F.fns[k_] = dict(v_, alias_partner=True)
     table = dict(F.std_insts)
     table.update(F.insts)
 
